@@ -480,7 +480,7 @@ fn c11_size_delta_in_tokens_u8() {
     w8::size_delta_in_tokens();
 }
 
-//@ prop=C11 tier=thorough kind=hold
+//@ prop=C11 tier=experimental kind=hold
 //@ enc=PositionExt::size_delta_in_tokens
 //@ bound=width-reduced T=u16: every u16 position size (usd, tokens), size delta, both sides
 //@ stubs=position environment = plain-struct VPosition
@@ -520,7 +520,7 @@ fn c11_full_close_capped_exact_short_u8() {
     w8::full_close_capped_exact(false);
 }
 
-//@ prop=C11 tier=thorough kind=hold
+//@ prop=C11 tier=experimental kind=hold
 //@ enc=PositionExt::pnl_value, BaseMarketExt::pnl, MarketUtils::cap_pnl
 //@ bound=width-reduced T=u8, DECIMALS=1: any close size; every u8 position, price, pool and trader pnl factor
 //@ stubs=market/position environment = plain-struct VMarket/VPosition
@@ -530,27 +530,27 @@ fn c11_pnl_le_uncapped_u8() {
     w8::pnl_le_uncapped();
 }
 
-//@ prop=C11 tier=quick kind=hold
+//@ prop=C11 tier=thorough kind=hold
 //@ enc=PositionExt::pnl_value, Price::pick_price_for_pnl, BaseMarketExt::pnl, MarketUtils::cap_pnl
 //@ bound=width-reduced T=u8, DECIMALS=1: full close of a long position; every u8 position, liquidity / open-interest pool and trader pnl factor; two index price pairs p1 <= p2 (both ends ordered), other prices equal; both evaluations must succeed
 //@ stubs=market/position environment = plain-struct VMarket/VPosition; by-design exclusion: the credited (capped) pnl is asserted monotone only where the trader cap does not bind, see c11_capped_pnl_monotone_u8
-//@ timeout=1800
+//@ timeout=5400 mem=30
 #[kani::proof]
 fn c11_pnl_monotone_full_close_long_u8() {
     w8::pnl_monotone_long(true, true);
 }
 
-//@ prop=C11 tier=quick kind=hold
+//@ prop=C11 tier=thorough kind=hold
 //@ enc=PositionExt::pnl_value, Price::pick_price_for_pnl, BaseMarketExt::pnl, MarketUtils::cap_pnl
 //@ bound=width-reduced T=u8, DECIMALS=1: full close of a short position; every u8 position, liquidity / open-interest pool and trader pnl factor; two index price pairs p1 <= p2 (both ends ordered), other prices equal; both evaluations must succeed
 //@ stubs=market/position environment = plain-struct VMarket/VPosition; by-design exclusion as in c11_pnl_monotone_full_close_long_u8
-//@ timeout=1800
+//@ timeout=5400 mem=30
 #[kani::proof]
 fn c11_pnl_monotone_full_close_short_u8() {
     w8::pnl_monotone_short(true, true);
 }
 
-//@ prop=C11 tier=thorough kind=hold
+//@ prop=C11 tier=experimental kind=hold
 //@ enc=PositionExt::pnl_value, Price::pick_price_for_pnl
 //@ bound=width-reduced T=u8, DECIMALS=1: any close size; every u8 position; two ordered index price pairs; market pools zero (uncapped branch)
 //@ stubs=market/position environment = plain-struct VMarket/VPosition
@@ -558,6 +558,15 @@ fn c11_pnl_monotone_full_close_short_u8() {
 #[kani::proof]
 fn c11_pnl_monotone_uncapped_u8() {
     w8::pnl_monotone(false, false);
+}
+
+//@ prop=C11 tier=quick kind=hold
+//@ enc=PositionExt::pnl_value, Price::pick_price_for_pnl
+//@ bound=width-reduced T=u8, DECIMALS=1: full close, both sides; every u8 position; two index price pairs p1 <= p2 (both ends ordered), other prices equal; market pools empty (the trader cap cannot bind); both evaluations must succeed
+//@ stubs=market/position environment = plain-struct VMarket/VPosition; by-design exclusion: with a binding trader cap the credited pnl is not monotone, see c11_capped_pnl_monotone_u8 (the symbolic-market variants are thorough)
+#[kani::proof]
+fn c11_pnl_monotone_full_close_uncapped_u8() {
+    w8::pnl_monotone(false, true);
 }
 
 //@ prop=C11 tier=quick kind=finding:c11_capped_pnl_not_monotone
@@ -570,7 +579,7 @@ fn c11_capped_pnl_monotone_u8() {
     w8::capped_pnl_monotone();
 }
 
-//@ prop=C11 tier=thorough kind=hold
+//@ prop=C11 tier=experimental kind=hold
 //@ enc=PositionExt::pnl_value, Price::pick_price_for_pnl, BaseMarketExt::pnl, MarketUtils::cap_pnl
 //@ bound=width-reduced T=u8, DECIMALS=1: every u8 position, market pools, trader pnl factor, size delta; two ordered index price pairs; monotone uncapped pnl always, credited pnl where the cap does not bind
 //@ stubs=market/position environment = plain-struct VMarket/VPosition
@@ -580,7 +589,7 @@ fn c11_pnl_monotone_in_index_price_u8() {
     w8::pnl_monotone(true, false);
 }
 
-//@ prop=C11 tier=thorough kind=hold
+//@ prop=C11 tier=experimental kind=hold
 //@ enc=PositionExt::{pnl_value,size_delta_in_tokens}, MulDiv::checked_mul_div_with_signed_numerator
 //@ bound=width-reduced T=u8, DECIMALS=1: every u8 position, market pools, trader pnl factor, prices and size delta; full close vs. partial close at the same prices
 //@ stubs=market/position environment = plain-struct VMarket/VPosition
@@ -590,7 +599,7 @@ fn c11_partial_close_is_proportional_u8() {
     w8::partial_close_proportional(true);
 }
 
-//@ prop=C11 tier=thorough kind=hold
+//@ prop=C11 tier=experimental kind=hold
 //@ enc=PositionExt::{pnl_value,size_delta_in_tokens}, BaseMarketExt::pnl, MarketUtils::cap_pnl
 //@ bound=width-reduced T=u8, DECIMALS=1: every u8 position, price, size delta, pools and trader pnl factor; compared with the exact composed reference incl. the failure condition
 //@ stubs=market/position environment = plain-struct VMarket/VPosition
@@ -600,7 +609,7 @@ fn c11_pnl_value_exact_ref_u8() {
     w8::pnl_value_exact(true);
 }
 
-//@ prop=C11 tier=thorough kind=hold
+//@ prop=C11 tier=experimental kind=hold
 //@ enc=PositionExt::{pnl_value,size_delta_in_tokens}, Price::pick_price_for_pnl
 //@ bound=width-reduced T=u16, DECIMALS=2: uncapped branch (market pools zero), every u16 position, index price pair and size delta
 //@ stubs=market/position environment = plain-struct VMarket/VPosition
@@ -610,7 +619,7 @@ fn c11_pnl_uncapped_exact_u16() {
     w16::pnl_uncapped_exact(true);
 }
 
-//@ prop=C11 tier=thorough kind=hold
+//@ prop=C11 tier=experimental kind=hold
 //@ enc=PositionExt::pnl_value, Price::pick_price_for_pnl
 //@ bound=width-reduced T=u16, DECIMALS=2: every u16 position, size delta, two ordered index price pairs; market pools zero (uncapped branch)
 //@ stubs=market/position environment = plain-struct VMarket/VPosition
